@@ -82,6 +82,8 @@ func main() {
 		c07.Run(os.Args[2], os.Args[3])
 	case "c08":
 		c08.Run(os.Args[2], os.Args[3])
+	case "c18hs":
+		c18.RunHandshake(os.Args[2])
 	case "c08stress":
 		n, _ := strconv.Atoi(os.Args[3])
 		c08.Stress(os.Args[2], n)
